@@ -52,12 +52,17 @@ def main():
         k = argv.index('--src')
         root = argv[k + 1]
         del argv[k:k + 2]
+    offset = 0
+    if '--offset' in argv:
+        k = argv.index('--offset')
+        offset = int(argv[k + 1])
+        del argv[k:k + 2]
     pid = argv[0]
     checks = [pid] + argv[1:]
     src = '%s/%s/out' % (root, pid)
     for i in (1, 2):
         patch = os.path.join(src, 'harmless%d.diff' % i)
-        dst = os.path.join(VERIF, 'seeded', 'harmless', '%s-h%d' % (pid, i))
+        dst = os.path.join(VERIF, 'seeded', 'harmless', '%s-h%d' % (pid, i + offset))
         if os.path.exists(patch):
             os.makedirs(dst, exist_ok=True)
             shutil.copy(patch, os.path.join(dst, 'patch.diff'))
@@ -74,7 +79,7 @@ def main():
         meta = {'property': pid, 'kind': 'behaviour-preserving change (expected outcome: SILENT)', 'equivalence_argument': note_text,
                 'checks': res, 'verdict': old.get('verdict', '')}
         json.dump(meta, open(meta_path, 'w'), indent=1)
-        print('%s-h%d %s' % (pid, i, ' | '.join('%s %s' % (r['check'], r['result']) for r in res)))
+        print('%s-h%d %s' % (pid, i + offset, ' | '.join('%s %s' % (r['check'], r['result']) for r in res)))
         for r in res:
             if r['result'] != 'SILENT':
                 print('   ', r['detail'][:700])
